@@ -196,8 +196,25 @@ def oracle_auto(case, text):
         by_sent.setdefault(n, []).append(body)
     if sorted(by_sent) != list(range(1, len(case['sents']) + 1)):
         return f'records are numbered {sorted(by_sent)} for {len(case["sents"])} sentences'
+    # the scores of the headers, per sentence
+    import re
+    scores_of = {}
+    for line in text.split('\n'):
+        m = re.match(r'^ID=(\d+), log probability=(\S+)$', line)
+        if m:
+            scores_of.setdefault(int(m.group(1)) - 1, []).append(float(m.group(2)))
+    seen_bodies = {si: [] for si in range(len(case['sents']))}
+    ids = {}
+    for j, c in enumerate(case['cats']):
+        ids.setdefault(str(c), j)
     for si, (p, _) in enumerate(case['sents']):
         bodies = by_sent[si + 1]
+        sc = scores_of.get(si, [])
+        if len(sc) != len(bodies):
+            return f'sentence {si + 1}: {len(sc)} header lines for {len(bodies)} trees'
+        if any(a < b for a, b in zip(sc, sc[1:])):
+            return f'sentence {si + 1}: the records are not in non-increasing score order: {sc}'
+        # (two different derivations may print the same AUTO line: the format does not carry rule labels)
         if len(bodies) > max(o['nbest'], 1):
             return f'sentence {si + 1}: {len(bodies)} records for --nbest {o["nbest"]}'
         admitted = S.admitted_tags(p)
@@ -212,13 +229,42 @@ def oracle_auto(case, text):
                     for k in t[-1]:
                         walk(k)
             walk(tree)
-            failed = len(leaves) == 1 and leaves[0][2] == 'FAILED'
+            failed = sc[len(seen_bodies[si])] == float('-inf')      # the failure placeholder is the record with score -inf
+            seen_bodies[si].append(body)
             if p.n > o['max_length'] and not failed:
                 return f'sentence {si + 1} has {p.n} words, more than --max-length {o["max_length"]}, but was parsed'
             if failed:
                 continue
             if len(leaves) != p.n:
                 return f'sentence {si + 1}: {len(leaves)} leaves for {p.n} words'
+            if [l[2] for l in leaves] != [t['word'] for t in case['doc'][si]]:
+                return f'sentence {si + 1}: the leaves carry the words {[l[2] for l in leaves]}, the input line has {[t["word"] for t in case["doc"][si]]}'
+            if tree[1] not in [str(c) for c in case['roots']]:
+                return f'sentence {si + 1}: root category {tree[1]} is not one of --root-cats'
+            # C09: the printed score is the model score of the printed tree (heads from the printed head flags)
+            counter = [0]
+
+            def rescore(t):
+                if t[0] == 'L':
+                    i = counter[0]
+                    counter[0] += 1
+                    return p.tags[i][ids[t[1]]], i
+                kids = t[-1]
+                if len(kids) == 1:
+                    s0, h0 = rescore(kids[0])
+                    return s0 - p.penalty, h0
+                (sl, hl), (sr, hr) = rescore(kids[0]), rescore(kids[1])
+                head, child = (hl, hr) if t[3] else (hr, hl)
+                return sl + sr + p.deps[child][head + 1], head
+            try:
+                s0, h0 = rescore(tree)
+                want = (s0 + p.deps[h0][0]) / S.SCALE
+                got = sc[len(seen_bodies[si]) - 1]
+                if abs(got - want) > 1e-6:
+                    return (f'sentence {si + 1}: the header says log probability={got}, the printed tree scores {want} under the scores '
+                            f'and --unary-penalty given')
+            except KeyError:
+                pass
             for i, leaf in enumerate(leaves):
                 ok = any(str(case['cats'][j]) == leaf[1] for j in admitted[i])
                 if not ok:
